@@ -75,6 +75,7 @@ func runC13(c *Ctx) {
 	R.Require("C13.seq", 4)
 	R.Require("C13.hs", 7)
 	R.Require("C13.readfrom", 1)
+	checkRegisteredWriter(c)
 	l := newLayout(c, "C13.hdr")
 	l.e.Contract = wsContract(P)
 	l.e.MaxDepth = 6
